@@ -42,6 +42,10 @@
 //!   [`Boot::fabric_identities`], [`Boot::device_sc_opcodes_since`] (wire tap: e.g. did the device
 //!   answer Sigma2_Resume?). Controllers may outlive a device incarnation.
 //!
+//! * **Removal inside a handshake** (C07 follow-up): [`Boot::case_spawn`] / [`Boot::case_finish`]
+//!   run a real CASE handshake as a background task; [`Boot::hold_install`] / [`Boot::hold_release`]
+//!   hold back its k-th unencrypted secure-channel message (either direction) meanwhile.
+//!
 //! # Typical use
 //!
 //! ```ignore
@@ -903,6 +907,64 @@ impl<C: Crypto> Controller<C> {
     }
 }
 
+/// A CASE handshake running in the background ([`Boot::case_spawn`]).
+pub struct CaseTask {
+    pub ctrl: usize,
+    before: Vec<u32>,
+    slot: Rc<RefCell<Option<Result<(), Error>>>>,
+    task: usize,
+}
+
+/// How a background CASE handshake ended ([`Boot::case_finish`]).
+#[derive(Debug, Clone)]
+pub struct CaseEnd {
+    /// the initiator's verdict
+    pub result: Result<(), String>,
+    /// the session the controller got out of it (internal id), if any
+    pub ctrl_sid: Option<u32>,
+    /// the device-side local session id the controller's session talks to
+    pub dev_local_sess: Option<u16>,
+    /// the matching CASE session on the device (internal id), if the device has one
+    pub dev_sid: Option<u32>,
+}
+
+/// The message held back by [`Boot::hold_install`].
+#[derive(Debug, Clone)]
+pub struct HeldMsg {
+    pub src: usize,
+    pub dst: usize,
+    pub ctr: u32,
+    /// secure-channel opcode
+    pub opcode: u8,
+    pub bytes: Vec<u8>,
+    pub t_us: u64,
+}
+
+struct HoldState {
+    node: usize,
+    k: usize,
+    seen: Vec<(usize, u32)>,
+    held: Option<HeldMsg>,
+    released: bool,
+}
+
+/// Handle on the adversary installed by [`Boot::hold_install`].
+pub struct Hold {
+    st: Rc<RefCell<HoldState>>,
+}
+
+impl Hold {
+    /// The message being held back (or that was held back), once the k-th message was seen.
+    pub fn held(&self) -> Option<HeldMsg> {
+        self.st.borrow().held.clone()
+    }
+
+    /// Number of distinct unencrypted secure-channel messages seen so far.
+    pub fn seen(&self) -> usize {
+        self.st.borrow().seen.len()
+    }
+}
+
 /// A session pair between a controller and the device.
 #[derive(Debug, Clone, Copy, PartialEq, Eq)]
 pub struct SessPair {
@@ -1499,6 +1561,150 @@ impl<'a, CC: Crypto> Boot<'a, CC> {
             .last()
             .ok_or("no CASE session on the device")?;
         Ok(SessPair { ctrl_sid, dev_sid, dev_local_sess: dev_local, ctrl })
+    }
+
+    /// Start a real CASE handshake as a BACKGROUND task (see [`Boot::case_finish`]); combine
+    /// with [`Boot::hold_install`] to do something while one of its messages is held back.
+    pub fn case_spawn(&mut self, ctrl: usize, ctrl_fab_idx: NonZeroU8, dev_node: u64) -> CaseTask {
+        let c = &self.ctrls[ctrl];
+        let before: Vec<u32> = sessions(&c.matter).iter().map(|s| s.id).collect();
+        let (m, cc) = (&*c.matter, &c.crypto);
+        let slot: Rc<RefCell<Option<Result<(), Error>>>> = Rc::new(RefCell::new(None));
+        let s2 = slot.clone();
+        let task = self.ex.spawn("case.bg", async move {
+            let r = async {
+                let exch = Exchange::initiate_plaintext(m, cc, node_addr(0)).await?;
+                CaseInitiator::perform(exch, cc, ctrl_fab_idx, dev_node).await
+            }
+            .await;
+            *s2.borrow_mut() = Some(r);
+        });
+        CaseTask { ctrl, before, slot, task }
+    }
+
+    /// Run the executor until `cond()` holds or the background handshake has ended, for at most
+    /// `max_us` of virtual time. Returns whether `cond()` holds.
+    pub fn run_until_or_case_end(&mut self, t: &CaseTask, max_us: u64, mut cond: impl FnMut() -> bool) -> bool {
+        let slot = t.slot.clone();
+        let dl = clock::now() + max_us;
+        self.ex.run_until(dl, || cond() || slot.borrow().is_some());
+        cond()
+    }
+
+    /// Let the background handshake finish (at most `max_us` of virtual time, then it is cancelled).
+    pub fn case_finish(&mut self, t: CaseTask, max_us: u64) -> CaseEnd {
+        let slot = t.slot.clone();
+        let dl = clock::now() + max_us;
+        self.ex.run_until(dl, || slot.borrow().is_some());
+        self.ex.kill(t.task);
+        self.ex.settle();
+        let result = match slot.borrow_mut().take() {
+            Some(Ok(())) => Ok(()),
+            Some(Err(e)) => Err(format!("CASE failed: {:?}", e.code())),
+            None => Err("CASE did not finish".to_string()),
+        };
+        let ctrl_sess = self.newest_ctrl_session(t.ctrl, &t.before, false);
+        let dev = ctrl_sess.and_then(|(_, dev_local)| {
+            sessions(self.matter)
+                .iter()
+                .filter(|s| s.local_sess_id == dev_local && matches!(s.mode, SessionMode::Case { .. }))
+                .map(|s| (s.id, dev_local))
+                .last()
+        });
+        CaseEnd { result, ctrl_sid: ctrl_sess.map(|(id, _)| id), dev_local_sess: ctrl_sess.map(|(_, l)| l), dev_sid: dev.map(|(id, _)| id) }
+    }
+
+    /// Install a network adversary that holds back the `k`-th (1-based; retransmissions are not
+    /// counted) UNENCRYPTED secure-channel message exchanged between the device and controller
+    /// `ctrl` from now on - Sigma1/2/3, Sigma2_Resume, status reports and standalone acks, both
+    /// directions - until [`Boot::hold_release`]. Every copy of the held message is dropped
+    /// meanwhile. Replaces any adversary installed before.
+    pub fn hold_install(&mut self, ctrl: usize, k: usize) -> Hold {
+        let node = self.ctrls[ctrl].net_node();
+        let st = Rc::new(RefCell::new(HoldState { node, k, seen: Vec::new(), held: None, released: false }));
+        let st2 = st.clone();
+        self.net.set_adversary(move |s: &super::net::Sent| {
+            let mut h = st2.borrow_mut();
+            let between = (s.src == 0 && s.dst == Some(h.node)) || (s.src == h.node && s.dst == Some(0));
+            if !between || h.released {
+                return super::net::deliver(s);
+            }
+            let Some((w, _)) = super::mutate::payload_offset(&s.bytes) else {
+                return super::net::deliver(s);
+            };
+            if w.proto_id != rs_matter::sc::PROTO_ID_SECURE_CHANNEL {
+                return super::net::deliver(s);
+            }
+            let key = (s.src, w.ctr);
+            if let Some(held) = &h.held {
+                if (held.src, held.ctr) == key {
+                    return vec![];
+                }
+            }
+            if !h.seen.contains(&key) {
+                h.seen.push(key);
+                if h.seen.len() == h.k && h.held.is_none() {
+                    h.held = Some(HeldMsg { src: s.src, dst: s.dst.unwrap_or(0), ctr: w.ctr, opcode: w.opcode, bytes: s.bytes.clone(), t_us: clock::now() });
+                    return vec![];
+                }
+            }
+            super::net::deliver(s)
+        });
+        Hold { st }
+    }
+
+    /// Release the held message (it is delivered now) and stop holding.
+    pub fn hold_release(&mut self, h: &Hold) {
+        let held = {
+            let mut st = h.st.borrow_mut();
+            st.released = true;
+            st.held.clone()
+        };
+        if let Some(m) = held {
+            self.net.inject(m.dst, node_addr(m.src), m.bytes);
+        }
+    }
+
+    /// While a message TO the device is held: deliver a standalone MRP acknowledgement for
+    /// whatever the held message acknowledges (what an initiator does when its next message takes
+    /// longer than the acknowledgement timeout), so that the device gets on to WAITING for the
+    /// held message. Built from the held datagram: same exchange, same acknowledged counter,
+    /// opcode `MRPStandAloneAck`, not reliable, no payload, a counter past the held one.
+    /// Returns whether an acknowledgement was sent.
+    pub fn hold_early_ack(&mut self, h: &Hold) -> bool {
+        use rs_matter::transport::packet::PacketHdr;
+        use rs_matter::utils::storage::{ParseBuf, WriteBuf};
+        let Some(m) = h.held() else { return false };
+        if m.dst != 0 {
+            return false;
+        }
+        let mut bytes = m.bytes.clone();
+        let mut pb = ParseBuf::new(bytes.as_mut_slice());
+        let mut hdr = PacketHdr::new();
+        if hdr.decode_plain_hdr(&mut pb).is_err() || hdr.plain.is_encrypted() {
+            return false;
+        }
+        let crypto = mk_crypto(1);
+        if hdr.decode_remaining(&crypto, None, 0, &mut pb).is_err() || hdr.proto.get_ack().is_none() {
+            return false;
+        }
+        hdr.plain.ctr = hdr.plain.ctr.wrapping_add(1);
+        hdr.proto.proto_opcode = 0x10;
+        hdr.proto.unset_reliable();
+        let mut out = [0u8; 64];
+        let mut wb = WriteBuf::new(&mut out);
+        if hdr.plain.encode(&mut wb).is_err() || hdr.proto.encode(&mut wb).is_err() {
+            return false;
+        }
+        let len = wb.get_tail();
+        self.net.inject(0, node_addr(m.src), out[..len].to_vec());
+        self.ex.settle();
+        true
+    }
+
+    /// Remove the adversary installed by [`Boot::hold_install`].
+    pub fn hold_clear(&mut self) {
+        self.net.clear_adversary();
     }
 
     /// Does the device still hold that session (and is it usable for new exchanges)?
